@@ -668,7 +668,29 @@ var _ = math.Abs
 // the string is known and the predicate is a function the evaluator can
 // follow: the predicate is evaluated on each rune in turn.
 func (fr *frame) predicateCall(c *ssa.Call, fn *ssa.Function, args []Val) (Val, bool) {
+	if fn.Pkg != nil && fn.Pkg.Pkg.Path() == "strings" && fn.Name() == "Map" && len(args) == 2 && args[0].K == KFunc && args[1].K == KStr {
+		mapping := args[0].Fn
+		if !InModule(mapping) || mapping.Blocks == nil {
+			return Val{}, false
+		}
+		var sb strings.Builder
+		for i, r := range args[1].S {
+			out := fr.in.run(mapping, []Val{int64Val(int64(r))}, nil, nil, fr.share(), fmt.Sprintf("%s/%sm%d", fr.ctx, c.Name(), i))
+			fr.in.curFr = fr
+			if !out.CanReturn || out.CanPanic || len(out.Ret) != 1 || out.Ret[0].K != KInt || !out.Ret[0].I.IsInt64() {
+				return topDep(true), true
+			}
+			if m := out.Ret[0].I.Int64(); m >= 0 {
+				sb.WriteRune(rune(m))
+			}
+		}
+		return Val{K: KStr, S: sb.String(), Dep: args[1].Dep}, true
+	}
 	if fn.Pkg == nil || fn.Pkg.Pkg.Path() != "strings" || len(args) != 2 || args[0].K != KStr || args[1].K != KFunc {
+		return Val{}, false
+	}
+	if fn.Name() == "Map" {
+		// strings.Map(mapping, s): args are (mapping, s)
 		return Val{}, false
 	}
 	switch fn.Name() {
